@@ -20,8 +20,17 @@ def wun(op, a):
     return (-a) & 0xFF if op == "Neg" else (~a) & 0xFF
 
 
-def make_spec(ops, style, ftypes, generic=False, entry="attr"):
-    return {"ops": ops, "style": style, "ftypes": ftypes, "generic": generic, "entry": entry}
+REV_NAMES = ["zf", "yf", "xf", "wf", "vf", "uf", "tf", "sf", "rf", "qf", "pf", "of"]
+
+
+def make_spec(ops, style, ftypes, generic=False, entry="attr", names="f"):
+    """names: "f" -> f0, f1, .. (declaration order = sorted order up to 10 fields); "rev" -> names whose sorted order is the
+    reverse of the declaration order."""
+    return {"ops": ops, "style": style, "ftypes": ftypes, "generic": generic, "entry": entry, "names": names}
+
+
+def fname(spec, i):
+    return REV_NAMES[i] if spec.get("names") == "rev" else f"f{i}"
 
 
 def type_text(spec):
@@ -39,7 +48,7 @@ def type_text(spec):
         return head + "pub struct Ty;"
     if spec["style"] == "tuple":
         return head + f"pub struct Ty{g}(" + ", ".join(tys) + ");"
-    return head + f"pub struct Ty{g} {{ " + ", ".join(f"f{i}: {t}" for i, t in enumerate(tys)) + " }"
+    return head + f"pub struct Ty{g} {{ " + ", ".join(f"{fname(spec, i)}: {t}" for i, t in enumerate(tys)) + " }"
 
 
 def inst(spec):
@@ -65,13 +74,13 @@ def mk(spec, side, pair):
         return "Ty"
     if spec["style"] == "tuple":
         return "Ty(" + ", ".join(vals) + ")"
-    return "Ty { " + ", ".join(f"f{i}: {v}" for i, v in enumerate(vals)) + " }"
+    return "Ty { " + ", ".join(f"{fname(spec, i)}: {v}" for i, v in enumerate(vals)) + " }"
 
 
 def dump_fn(spec):
     parts = []
     for i in range(len(spec["ftypes"])):
-        acc = f"x.f{i}" if spec["style"] == "named" else f"x.{i}"
+        acc = f"x.{fname(spec, i)}" if spec["style"] == "named" else f"x.{i}"
         if fkind(spec, i) == "term":
             parts.append(f"{acc}.0.clone()")
         else:
@@ -211,7 +220,11 @@ def corpus(tier, rng):
                 ft = ["term" if (i + k) % 3 else "w" for i in range(n)]
                 if n and "term" not in ft:
                     ft[0] = "term"
-                specs.append(make_spec([op], style, ft, entry="attr" if k % 2 else "derive"))
+                specs.append(make_spec([op], style, ft, entry="attr" if k % 2 else "derive", names="rev" if (style == "named" and k % 4 < 2) else "f"))
+        # more than ten fields: member names / indices whose text order differs from the declaration order (f10 < f2, "10" < "2")
+        for style in ("tuple", "named"):
+            k += 1
+            specs.append(make_spec([op], style, ["term" if (i + k) % 4 else "w" for i in range(11 + k % 2)], entry="attr" if k % 2 else "derive"))
     nextra = 150 if tier == "quick" else 1500
     for _ in range(nextra):
         n = rng.randint(1, 4)
@@ -219,7 +232,7 @@ def corpus(tier, rng):
         ft = [rng.choice(["T", "U", "term", "w"] if generic else ["term", "w"]) for _ in range(n)]
         generic = any(t in ("T", "U") for t in ft)
         ops = rng.sample(allops, rng.randint(1, 5))
-        specs.append(make_spec(ops, rng.choice(["tuple", "named"]), ft, generic, rng.choice(["attr", "derive"])))
+        specs.append(make_spec(ops, rng.choice(["tuple", "named"]), ft, generic, rng.choice(["attr", "derive"]), rng.choice(["f", "rev"])))
     return specs
 
 
@@ -274,8 +287,9 @@ def run(rep, tier, rng):
             e["res"] = [x.replace("a", "\0").replace("b", "a").replace("\0", "b") for x in e["res"]]
     rep.canary = any(b[0].startswith("result:Sub:rv") for b in check_case(c.meta["spec"], ev))
     rep.exhaustive = True
-    rep.rule = ("complete over 22 operator traits x {unit, tuple(0-4), named(0-4)} (242 types) with free-term-algebra fields "
-                "(non-commutative, call-recording) and wrapping-integer fields, plus generic / mixed / multi-operator types; "
+    rep.rule = ("complete over 22 operator traits x {unit, tuple(0-4), named(0-4), tuple/named(11-12)} with free-term-algebra fields "
+                "(non-commutative, call-recording) and wrapping-integer fields, plus generic / mixed / multi-operator types; named "
+                "structs are declared both with field names in sorted order and in reverse-sorted order; "
                 "every owned/reference form is applied and the logged result, per-field operator call trace and borrowed "
                 "operands are compared with the field-wise expectation. evaluations = operator applications observed; "
                 "distinct_nontrivial = distinct (operator, form, struct kind, arity, generic).")
